@@ -44,7 +44,7 @@ def run(ctx):
     # larger instances: seeded random ones, and (thorough) instances drawn by TLC -simulate from a larger scope;
     # they are evaluated exhaustively by TLC (all tie resolutions) with Source = "file" / "both"
     rows = rc.random_rescale_instances(ctx.rng, 60 if q else 800)
-    scope = dict(max_n=3, max_t=2 if q else 3, max_edges=2 if q else 3, max_m=1, spans=(1, 2),
+    scope = dict(max_n=3, max_t=2, max_edges=2 if q else 3, max_m=1, spans=(1, 2),
                  js=(1, 2) if q else (1, 2, 3), fixed_modes=("zeros",) if q else ("zeros", "last"), emit=True)
     if q:   # one JVM: the exhaustive scope and the random instances together
         path = rc.write_ndjson(rc.work_file(ctx, "c25_inst.ndjson"), rows)
